@@ -284,7 +284,7 @@ bool excludedRational(const std::string& text, bool parsedAsMps)
       vfz::count("excluded_known.rat-denominator-unchecked");
       return true;
    }
-   if(parsedAsMps && vfz::known("mps-rational-rows-null") && vfz::known("mps-eof-hang") && vfz::mpsRowsLineWithoutName(text))
+   if(parsedAsMps && vfz::known("mps-rational-rows-null") && vfz::mpsRowsLineWithoutName(text))
    {
       vfz::count("excluded_known.mps-rational-rows-null");
       return true;
@@ -300,10 +300,10 @@ void readLP(int sel, std::string text, bool extMps, bool gz)
    if(text.empty())
    {
       // SPxLPBase::read() looks at a character it could not extract; which reader runs then depends on stack
-      // garbage (candidate finding read-empty-uninit, visible to valgrind only)
-      if(vfz::known("read-empty-uninit"))
+      // garbage (known finding valgrind__read-empty-uninit, visible to valgrind only)
+      if(vfz::known("valgrind__read-empty-uninit"))
       {
-         vfz::count("excluded_known.read-empty-uninit");
+         vfz::count("excluded_known.valgrind__read-empty-uninit");
          return;
       }
       vfz::completeMps(text);   // may be taken for MPS: keep the tokenizer away from end of file
@@ -311,6 +311,11 @@ void readLP(int sel, std::string text, bool extMps, bool gz)
    else if(text[0] == '*' || text[0] == 'N') vfz::completeMps(text);
    bool parsedAsMps = !text.empty() && (text[0] == '*' || text[0] == 'N');
    if(rational && excludedRational(text, parsedAsMps)) return;
+   if(!parsedAsMps && vfz::known("lpf-long-token-overflow") && vfz::hasLongLpToken(text))
+   {
+      vfz::count("excluded_known.lpf-long-token-overflow");
+      return;
+   }
    if(!parsedAsMps && vfz::known("lpf-keyword-bracket-overread") && vfz::hasClosingBracket(text))
    {
       vfz::count("excluded_known.lpf-keyword-bracket-overread");
@@ -449,6 +454,11 @@ void readSettings(int sel, const std::string& text, bool asString, bool gz)
       buf.assign(text.data(), text.data() + len);
       buf.push_back('\0');
       buf.shrink_to_fit();
+      if(vfz::known("valgrind__settings-overscan") && vfz::settingsTokenEndsAtNul(buf.data()))
+      {
+         vfz::count("excluded_known.valgrind__settings-overscan");
+         return;
+      }
    }
    else
    {
